@@ -92,6 +92,10 @@ func c17ParseReport(stderr string) (r c17Report) {
 		r.why = "no position report in: " + head(stderr, 200)
 		return
 	}
+	if c17PlainQuery {
+		// the header quotes a one-line query given as an argument, which may itself end in ":<digits>"
+		m[3] = ""
+	}
 	rest := stderr[len(m[0]):]
 	lines := strings.SplitN(rest, "\n", 3)
 	if len(lines) < 2 {
@@ -265,6 +269,9 @@ func c17RunInput(args []string, text string, tr c17Transport, dir string, shard 
 
 var c17Ctx *engine.Ctx
 
+// c17PlainQuery is set while the report of a one-line query argument is parsed: that form has no line number.
+var c17PlainQuery bool
+
 func c17Run(c *engine.Ctx) {
 	c17Ctx = c
 	dir := WorkDir()
@@ -402,12 +409,19 @@ func c17Run(c *engine.Ctx) {
 type c17Offender struct {
 	text  string
 	token string // expected ParseError.Token ("" = not checked)
+	rel   int    // where the offending token starts within text
 }
 
 func c17Queries(c *engine.Ctx) {
 	offenders := []c17Offender{
-		{"&", "&"}, {"end", "end"}, {"then", "then"}, {")", ")"}, {"]", "]"}, {"}", "}"}, {"catch", "catch"}, {`"s"`, `"s"`}, {"1", "1"}, {"$x", "$x"}, {"if", "if"}, {`"a\(1)"`, `"`}, {`"\q"`, `\q`}, {`"\u12"`, ""},
-		{"1.2.3", ""}, {"あ", "あ"}, {"日本", "日"}, {"@base64x!", ""}, {"..a", ""}, {"elif", "elif"}, {"?//", "?//"}, {"%%", ""},
+		{"&", "&", 0}, {"end", "end", 0}, {"then", "then", 0}, {")", ")", 0}, {"]", "]", 0}, {"}", "}", 0}, {"catch", "catch", 0}, {`"s"`, `"s"`, 0}, {"1", "1", 0}, {"$x", "$x", 0}, {"if", "if", 0}, {`"a\(1)"`, `"`, 0}, {`"\q"`, `\q`, 0}, {`"\u12"`, "", 0},
+		{"1.2.3", "", 0}, {"あ", "あ", 0}, {"日本", "日", 0}, {"@base64x!", "", 0}, {"..a", "", 0}, {"elif", "elif", 0}, {"?//", "?//", 0}, {"%%", "", 0},
+		// an offending token right after (or glued to) tokens the lexer had to look ahead for
+		{text: "f::1", token: "f"}, {text: "$x::", token: "$x"}, {text: "f:: g", token: "f"}, {text: "| f::1", token: ":", rel: 3}, {text: "| f:: g", token: ":", rel: 3}, {text: "| f:1", token: ":", rel: 3},
+		{text: "| $x::1", token: ":", rel: 4}, {text: "| m::f::g", token: ":", rel: 6}, {text: "| .a?/ ]", token: "]", rel: 7}, {text: "| .a.. 1", token: "..", rel: 4}, {text: "| 1 ?/ /2", token: "/", rel: 7},
+		{text: "| .a.[0] ]", token: "]", rel: 9}, {text: "| 1 as $x::y | 2", token: "$x::y", rel: 7}, {text: "| {a::1}", token: ":", rel: 5}, {text: "| {$x::1}", token: ":", rel: 6}, {text: "| {a:1 b}", token: "b", rel: 7},
+		{text: "| 1 == = 2", token: "=", rel: 7}, {text: "| 1 //= = 2", token: "=", rel: 8}, {text: "| 1 ?// 2", token: "?//", rel: 4}, {text: "| .a |= = 1", token: "=", rel: 8}, {text: "| 1 != ! 2", token: "!", rel: 7},
+		{text: "| 1 <= = 2", token: "=", rel: 7}, {text: "| .a and or .b", token: "or", rel: 9}, {text: "| @text @", token: "", rel: 8}, {text: "| .a?? ?// 1", token: "?//", rel: 7},
 	}
 	// contexts: text before the offender ends in a complete term at top level, so the offender cannot continue it
 	prefixes := []string{"1 ", ".a ", "[1, 2] | .[0] ", "def f: .;\n. as $x |\n  $x ", "1 as $x | # comment\n\t$x ", "\"é日本\" ", "\"" + strings.Repeat("日", 30) + "\" | .a ",
@@ -422,7 +436,7 @@ func c17Queries(c *engine.Ctx) {
 					continue
 				}
 				src := pre + off.text + suf
-				p := len(pre) // the offending token starts here
+				p := len(pre) + off.rel // the offending token starts here
 				c.Eval()
 				_, err := gojq.Parse(src)
 				pe, ok := err.(*gojq.ParseError)
@@ -463,7 +477,10 @@ func c17Queries(c *engine.Ctx) {
 						c.Violation(src, "query-position", map[string]any{"query": src, "why": fmt.Sprintf("status %d for a query that does not parse", r.Status)})
 						continue
 					}
-					if msg := c17CheckReport(src, wantP, r.Stderr); msg != "" {
+					c17PlainQuery = !viaFile && !strings.ContainsAny(src, "\r\n")
+					msg := c17CheckReport(src, wantP, r.Stderr)
+					c17PlainQuery = false
+					if msg != "" {
 						c.Violation(fmt.Sprintf("%s file=%v", src, viaFile), "query-position", map[string]any{"query": src, "file": viaFile, "why": msg, "stderr": head(r.Stderr, 300)})
 					}
 				}
@@ -507,7 +524,7 @@ func init() {
 		ID:    "C17",
 		Level: "fault_enumeration",
 		Rule: "well-formed multi-line documents of 3 kinds (one scalar per line; nested objects with multi-byte and double-width characters; lines longer than the excerpt window) x sizes {40 B, 500 B, 4 KiB, 16 KiB-1/+0/+1, 40 KiB, thorough 70 KiB} x line terminators {LF, CRLF, CR} x 0..3 preceding valid documents (3/9/14 KB, so the 16 KiB window reset falls before, inside and after the faulty document) are corrupted by replacing ONE byte (by ? and by 0xFF) at EVERY byte for small documents and at every byte within +-70 of each multiple of 4096 and 16384, +-6 of each multiple of 512 and the first/last 80 bytes otherwise; each corrupted stream goes through 8 transports (regular file; pipe delivered whole and in chunks of 1, 7, 512, 4096, 16384, 16385). " +
-			"The absolute offset of the offending byte comes from encoding/json run by the harness on the same bytes; the reported line must be its 1-based line (LF, CRLF, CR), the quoted text a piece of that line covering it, and the caret under it in terminal columns (go-runewidth). Truncations under default/--stream/-s/--slurpfile; query errors: 22 offending token kinds x 15 contexts x 4 continuations, as argument and -f file, checked for ParseError Offset/Token and the caret.",
+			"The absolute offset of the offending byte comes from encoding/json run by the harness on the same bytes; the reported line must be its 1-based line (LF, CRLF, CR), the quoted text a piece of that line covering it, and the caret under it in terminal columns (go-runewidth). Truncations under default/--stream/-s/--slurpfile; query errors: 47 offending token kinds x 15 contexts x 4 continuations, as argument and -f file, checked for ParseError Offset/Token and the caret.",
 		Assume:         []string{"encoding/json's SyntaxError.Offset on the harness's own decode of the same bytes locates the offending byte; go-runewidth gives terminal widths"},
 		Run:            c17Run,
 		Replay:         c17Replay,
